@@ -80,6 +80,11 @@ func (e *envelope) Sign(req *signature.SignRequest) ([]byte, error) {
 		return nil, &signature.InvalidSignRequestError{
 			Msg: fmt.Sprintf("payload format error: %v", err.Error())}
 	}
+	if payload == nil {
+		// the JSON value null unmarshals into a nil map without an error
+		return nil, &signature.InvalidSignRequestError{
+			Msg: "payload format error: payload is not a JSON object"}
+	}
 
 	// JWT sign and get certificate chain
 	compact, certs, err := sign(payload, signedAttrs, method)
